@@ -268,6 +268,11 @@ impl<'a> Parser<'a> {
 
       Some(super_class)
     } else {
+      // without a super class a class inherits from Object
+      if name.str() == "Object" {
+        return self.error("A class cannot inherit from itself.");
+      }
+
       None
     };
 
